@@ -89,3 +89,39 @@ Proof.
   vm_compute. repeat split; reflexivity.
 Qed.
 End HitEx.
+
+(* ------------------------------------------------------------------ C15 ⟵ C07 *)
+From Sccache Require Proofs.Lru Model.RoCache Proofs.RoCache Proofs.ComposeC15.
+Module C15Ex.
+Import Sccache.Model.Lru Sccache.Model.LruPut Sccache.Proofs.Lru Sccache.Proofs.ComposeC15.
+Module RC := Sccache.Model.RoCache.
+Module RCP := Sccache.Proofs.RoCache.
+
+Definition k1 : key := [97; 98; 99; 100].      (* abcd -> a/b/abcd *)
+Definition k2 : key := [99; 100; 101; 102].    (* cdef -> c/d/cdef *)
+(* a read-write history: a write fails after 3 bytes, the retry stores 40 bytes; an entry larger than the cache is
+   refused; a second entry and a preprocessor entry are stored; a lookup *)
+Definition hist : list dop :=
+  [DPut (RC.main_path k1) 40 (Some 3); DPut (RC.main_path k1) 40 None; DPut (RC.main_path k2) 200 None;
+   DPut (RC.main_path k2) 30 None; DPutPp (RC.pp_path k1) 10 (Some 2); DPutPp (RC.pp_path k1) 10 None;
+   DGet (RC.main_path k1)].
+Definition s : st := drun (reopen (empty 100) 100) hist.
+Definition ro_ops : list RC.op := [RC.Get k2; RC.Put k2 30 7; RC.PpPut k1; RC.Restart false true 100; RC.Get [120; 121]].
+Definition d' : RC.dc := RC.run (RC.start false 120 17 (files s) [] [] 1000) ro_ops.
+
+Lemma instance :
+  dir_ok (empty 100) /\ 100 <= 120 /\
+  forallb (RCP.ro_op_fits (RC.total_size (files s))) ro_ops = true /\
+  forallb RC.ro_item (map RC.IOp ro_ops) = true /\
+  (* both entries and the preprocessor entry are indexed by the read-write store, and served read-only *)
+  alookup (RC.main_path k1) (index s) = Some 40 /\ alookup (RC.main_path k2) (index s) = Some 30 /\
+  alookup (RC.pp_path k1) (index s) = Some 10 /\
+  is_temp (RC.main_path k1) = false /\ RC.min_entry <= 40 /\
+  snd (RC.step d' (RC.Get k1)) = RC.OHit /\ snd (RC.step d' (RC.Get k2)) = RC.OHit /\
+  snd (RC.step d' (RC.PpGet k1)) = RC.OFound /\ snd (RC.step d' (RC.Get [120; 121])) = RC.OMiss.
+Proof.
+  split; [repeat split; try exact I; intros; discriminate|].
+  split; [discriminate|].
+  vm_compute. repeat split; try reflexivity; discriminate.
+Qed.
+End C15Ex.
